@@ -187,7 +187,7 @@ class C18(HistoryProperty):
     )
     ASSUMPTIONS = ["handlers are installed with labrea.runtime.handle (public API)", "type-consistent dictionaries"]
     STUBS = HistoryProperty.STUBS + ["recording pass-through handlers for the nine request types", "logging sink"]
-    QUICK = {"runs": 2000, "wall": 40}
+    QUICK = {"runs": 8000, "wall": 40}
     THOROUGH = {"runs": 200000, "wall": 480}
     NONTRIVIAL_MEASURE = "history_passthrough_and_substitution"
 
